@@ -20,8 +20,8 @@ ASSUMPTIONS = [
     "floats returned for decimal counts are encoded as rationals p/q (q <= 10^6, rel. residual <= 1e-12)",
 ]
 
-QUICK = ["nest_q", "counts_q", "hyd_q", "decor_q", "prefix2_q", "symbols", "symsuf", "faults_q", "digits"]
-THOROUGH = ["nest_t", "counts_t", "hyd_t", "decor_t", "prefix2_t", "symbols", "symsuf", "faults_t", "digits"]
+QUICK = ["nest_q", "counts_q", "hyd_q", "decor_q", "prefix2_q", "symbols", "symsuf", "faults_q", "digits", "near"]
+THOROUGH = ["nest_t", "counts_t", "hyd_t", "decor_t", "prefix2_t", "symbols", "symsuf", "faults_t", "digits", "near"]
 ACTIONS = {
     "nest_q": ["GenAtom", "GenOpen", "GenClose", "Finish"],
     "hyd_q": ["GenHydrate", "GenCharge"],
